@@ -768,6 +768,11 @@ class Interp:
             it = it if it is not None else self.ev(st.iter, fr)       # (evaluated once: its calls are events)
             fused = None
             ca_ = it.single_atom()
+            enum_ = False
+            if ca_ is not None and ca_.kind == 'call' and ca_.args[0] == 'enumerate' and len(ca_.args[1]) == 1 and not ca_.args[2]:
+                inner_ = ca_.args[1][0].single_atom()
+                if inner_ is not None and inner_.kind == 'comp':
+                    ca_, enum_ = inner_, True          # for i, x in enumerate([E(y) for y in IT])
             if ca_ is not None and ca_.kind == 'comp' and ca_.args[0] in ('list', 'gen') and len(ca_.args[2]) == 1:
                 ga_ = ca_.args[2][0].single_atom()
                 if ga_ is not None and ga_.kind == 'tuple' and len(ga_.args) == 1:
@@ -788,7 +793,7 @@ class Interp:
             info['trip'] = self._trip(it)
             tgt_val = self._loop_target(it, lid)
             if fused is not None:
-                tgt_val = (fused, tgt_val[1])
+                tgt_val = ((T.mk_tuple([tgt_val[1], fused]) if enum_ else fused), tgt_val[1])
             info['index'] = tgt_val[1]
         # pass 1: discover heap keys written in the body (events not recorded)
         env0, heap0 = dict(fr.env), dict(self.heap)
